@@ -6,6 +6,7 @@ through a pipe and ``_exit``s.  A child that exceeds its wall budget is killed a
 a *harness* failure -- never as a pass, never as a violation.
 """
 import concurrent.futures
+import concurrent.futures.process
 import faulthandler
 import multiprocessing
 import os
@@ -134,7 +135,14 @@ def run_batch(fn, payloads, keys=None, warm=None, nproc=None, timeout=120.0, chu
                 except StopIteration:
                     exhausted = True
                     break
-                pending.add(pool.submit(_run_chunk, (fn, warm, c, timeout, fork)))
+                try:
+                    pending.add(pool.submit(_run_chunk, (fn, warm, c, timeout, fork)))
+                except concurrent.futures.process.BrokenProcessPool as error:
+                    # a pool process was killed (e.g. out of memory): a harness failure, never a verdict
+                    results.append((-1, "harness_error", f"process pool broken: {error!r}", 0.0))
+                    exhausted = True
+                    skipped = sum(len(rest) for rest in it)
+                    break
             if not pending:
                 break
             done, pending = concurrent.futures.wait(pending, return_when=concurrent.futures.FIRST_COMPLETED)
